@@ -17,7 +17,8 @@ L(o) == [n |-> o.line.n, core |-> o.line.core, ver |-> o.line.ver, net |-> o.lin
 C(o) == [allowed |-> o.cfg.allowed, tls |-> o.cfg.tls, muxreq |-> o.cfg.muxreq]
 
 \* "mismatch": a real serving plugin (its socket already exists) that this host turns down because of its own configuration
-Causes == {"line", "mismatch", "silent", "partial", "exitearly", "closeout"}
+\* "tinytimeout": a start timeout shorter than it takes to spawn the process
+Causes == {"line", "mismatch", "silent", "tinytimeout", "partial", "exitearly", "closeout"}
 StartTimeoutMs == 1500
 Slack == 1500
 
